@@ -102,8 +102,40 @@ pub fn build(full_name: &str, level: u8) -> Option<Scenario> {
                 s.nodes[2].min_election_tick = 2 * et + 1;
                 s.nodes[2].max_election_tick = 2 * et + 2;
             }
+            if n.contains("-four") {
+                // 4 voters, pre-vote. Node 1 won the pre-vote for term 1 (grants of 2 and 3),
+                // campaigned and holds the real votes {1, 2} - one short of a majority; the
+                // other requests were lost. Its next time-out starts a pre-vote for term 2.
+                let base = Scenario::new(name, 4);
+                s = Scenario { nodes: base.nodes, voters: base.voters, ..s };
+                for nd in s.nodes.iter_mut() {
+                    nd.pre_vote = true;
+                    nd.check_quorum = name.contains("cq");
+                }
+                s.prefix = vec![
+                    Action::Timeout(1),
+                    Action::Settle0(1),
+                    Action::Deliver(1, 2),
+                    Action::Settle0(2),
+                    Action::Deliver(1, 3),
+                    Action::Settle0(3),
+                    Action::Deliver(2, 1),
+                    Action::Settle0(1),
+                    Action::Deliver(3, 1),
+                    Action::Settle0(1),
+                    Action::Deliver(1, 2),
+                    Action::Settle0(2),
+                    Action::Deliver(2, 1),
+                    Action::Settle0(1),
+                    Action::DropAll,
+                ];
+                s.timeoutable = vec![1];
+                s.crashable = vec![];
+            }
             // ladder
             let (mt, to, drops, dups, cuts, crashes, reorders, beats) = match l {
+                0 if n.contains("-four") => (2, 1, 0, 0, 0, 0, 0, 0),
+                1 if n.contains("-four") => (3, 2, 1, 0, 0, 0, 0, 0),
                 0 => (2, 2, 0, 0, 0, 1, 0, 0),
                 1 if n.contains("-stale") => (3, 2, 0, 0, 1, 1, 0, 0),
                 1 => (2, 2, 0, 0, 0, 0, 0, 0),
@@ -263,6 +295,58 @@ pub fn build(full_name: &str, level: u8) -> Option<Scenario> {
                 for (k, nd) in s.nodes.iter_mut().enumerate() {
                     nd.group_id = if k == 0 { 1 } else { 2 };
                 }
+            }
+            if name.contains("-stalehb") {
+                // pre-vote on. Node 1 led term 1 (local-only (2, term 1)); one of its term-1
+                // heartbeats to node 2 is still in flight. Node 2 led term 2 with local-only
+                // (2, term 2), (3, term 2). Node 1 now leads term 3 with (3, term 3); node 2
+                // follows in term 3 with its divergent tail, as long as the leader's log. The
+                // stale heartbeat arrives now: the answer that makes a stale leader step down
+                // must not pass for an acknowledgement of the new leader's log.
+                for nd in s.nodes.iter_mut() {
+                    nd.pre_vote = true;
+                    nd.max_size_per_msg = raft::NO_LIMIT;
+                }
+                s.prefix = vec![
+                    Action::Timeout(1),
+                    Action::Settle,
+                    Action::Propose(1, 0),
+                    Action::Settle0(1),
+                    Action::DropAll,
+                    Action::Tick(1),
+                    Action::Settle0(1),
+                    Action::Drop(1, 3),
+                    // node 2 wins term 2 with node 3
+                    Action::Timeout(2),
+                    Action::Settle0(2),
+                    Action::Deliver(2, 3),
+                    Action::Settle0(3),
+                    Action::Deliver(3, 2),
+                    Action::Settle0(2),
+                    Action::Deliver(2, 3),
+                    Action::Settle0(3),
+                    Action::Deliver(3, 2),
+                    Action::Settle0(2),
+                    Action::Propose(2, 0),
+                    Action::Settle0(2),
+                    Action::Isolate(3),
+                    // node 1 hears of term 2 (pre-vote, then the vote request)
+                    Action::Deliver(2, 1),
+                    Action::Settle0(1),
+                    Action::Deliver(2, 1),
+                    Action::Settle0(1),
+                    Action::Drop(2, 1),
+                ];
+                s.timeoutable = vec![1];
+                s.clients_at = vec![];
+                s.crashable = vec![];
+                s.max_term = 3;
+                s.max_index = 4;
+                s.caps = caps(|c| {
+                    c.timeouts = 1;
+                    c.reorders = 2;
+                    c.beats = (l as u8).min(1);
+                });
             }
             if name.contains("-back") {
                 // (1, term 1) is committed everywhere; node 1 holds a local-only (2, term 1);
@@ -1143,6 +1227,38 @@ pub fn build(full_name: &str, level: u8) -> Option<Scenario> {
                 s.prefix.push(Action::Crash(2, 9));
                 s.down_forever = vec![2];
             }
+            if n.contains("-jauto") {
+                // an implicit (auto-leave) joint change adds learner 4; node 3 applied the
+                // enter-joint entry and went down before the leave-joint entry was committed;
+                // the others left the joint configuration, went on and compacted: node 3, still
+                // in the auto-leave joint configuration, is caught up by a snapshot
+                s = Scenario::new(name, 4);
+                s.voters = vec![1, 2, 3];
+                s.cc_menu = vec![CcSpec::V2(1, vec![(2, 4)])];
+                s.prefix = vec![
+                    Action::Timeout(1),
+                    Action::Settle,
+                    Action::ProposeCc(1, 0),
+                    Action::Settle0(1),
+                    Action::Deliver(1, 2),
+                    Action::Settle0(2),
+                    Action::Deliver(1, 3),
+                    Action::Settle0(3),
+                    Action::Deliver(2, 1),
+                    Action::Settle0(1),
+                    Action::Deliver(1, 3),
+                    Action::Settle0(3),
+                    Action::Crash(3, 9),
+                    Action::Settle,
+                    Action::Propose(1, 0),
+                    Action::Settle,
+                    Action::Propose(1, 0),
+                    Action::Settle,
+                    Action::Compact(1),
+                    Action::DropAll,
+                    Action::Restart(3),
+                ];
+            }
             if n.contains("-jback") {
                 // while node 3 is down the group adds voter 4 and then enters an explicit joint
                 // configuration removing it again: (1 2 3)&&(1 2 3 4). The snapshot's incoming
@@ -1216,6 +1332,11 @@ pub fn build(full_name: &str, level: u8) -> Option<Scenario> {
                 if n.contains("-unp") {
                     // keep the space for the snapshot-then-append race small
                     c.timeouts = 0;
+                    c.snapfail = 0;
+                }
+                if n.contains("-unr") {
+                    // the application reports the snapshot receiver unreachable once
+                    c.unreach = 1;
                     c.snapfail = 0;
                 }
                 if req {
